@@ -24,7 +24,48 @@ fn pt_is(p: &G1Projective, e: &Value) -> bool {
     }
 }
 
-pub fn run(_op: &str, v: &Value) -> Value {
+/// f_accfin: MembershipProof::finalize on chosen parameters (known logs), proof and challenge; the eight values it
+/// hashes are compared with G1 / GT elements built from the model's predicted exponents (`expect`), by comparing the
+/// merlin transcripts after `get_bytes_for_challenge` (labels as in proof.rs).
+fn run_fin(v: &Value) -> Value {
+    let g = G1Projective::GENERATOR;
+    let params = ProofParams { x: g * sc(&v["x"]), y: g * sc(&v["y"]), z: g * sc(&v["z"]), k: g };
+    let pk = PublicKey::from(&SecretKey(sc(&v["alpha"])));
+    let acc = Accumulator(g * sc(&v["V"]));
+    let pj = json!({
+        "e_c": crate::ops_adv::tj(&(g * sc(&v["ec"]))), "t_sigma": crate::ops_adv::tj(&(g * sc(&v["ts"]))), "t_rho": crate::ops_adv::tj(&(g * sc(&v["tr"]))),
+        "s_sigma": crate::ops_adv::tj(&sc(&v["ss"])), "s_rho": crate::ops_adv::tj(&sc(&v["sr"])),
+        "s_delta_sigma": crate::ops_adv::tj(&sc(&v["sds"])), "s_delta_rho": crate::ops_adv::tj(&sc(&v["sdr"])), "s_y": crate::ops_adv::tj(&sc(&v["sy"]))});
+    let proof: MembershipProof = crate::ops_adv::fj(&pj);
+    let fin = proof.finalize(acc, params, pk, Element(sc(&v["c"])));
+    let mut t1 = merlin::Transcript::new(b"f_accfin");
+    fin.get_bytes_for_challenge(&mut t1);
+    let e = scl(&v["expect"]);
+    if e.len() != 8 {
+        return json!({"r":"harness-error","msg":"expect needs 8 exponents"});
+    }
+    use elliptic_curve::group::GroupEncoding;
+    let gt = blsful::inner_types::pairing(&G1Affine::generator(), &G2Affine::generator()) * e[3];
+    let mut t2 = merlin::Transcript::new(b"f_accfin");
+    t2.append_message(b"Ec", (g * e[0]).to_bytes().as_ref());
+    t2.append_message(b"T_sigma", (g * e[1]).to_bytes().as_ref());
+    t2.append_message(b"T_rho", (g * e[2]).to_bytes().as_ref());
+    t2.append_message(b"R_E", gt.to_bytes().as_ref());
+    t2.append_message(b"R_sigma", (g * e[4]).to_bytes().as_ref());
+    t2.append_message(b"R_rho", (g * e[5]).to_bytes().as_ref());
+    t2.append_message(b"R_delta_sigma", (g * e[6]).to_bytes().as_ref());
+    t2.append_message(b"R_delta_rho", (g * e[7]).to_bytes().as_ref());
+    let (mut a, mut b) = ([0u8; 32], [0u8; 32]);
+    t1.challenge_bytes(b"x", &mut a);
+    t2.challenge_bytes(b"x", &mut b);
+    // which single field differs, if any: rebuild with the library's value is not possible (fields are private), so only the verdict
+    json!({"r":"ok","same": a == b})
+}
+
+pub fn run(op: &str, v: &Value) -> Value {
+    if op == "f_accfin" {
+        return run_fin(v);
+    }
     let key = SecretKey(sc(&v["alpha"]));
     let pk = PublicKey::from(&key);
     let y = Element(sc(&v["y"]));
